@@ -377,9 +377,9 @@ def r5_no_transformation_after_uniqueness(ctx, rep):
 
 
 RULES = [
-    RuleSpec("C10.R5", r5_no_transformation_after_uniqueness, "no lossy transformation after the identifier was made unique", floor=4),
-    RuleSpec("C10.R1", r1_counter_key, "collision key at least as coarse as the stem; injective symbol table", floor=5),
-    RuleSpec("C10.R2", r2_write_targets_use_ident, "per-entity write targets use ident", floor=3),
-    RuleSpec("C10.R3", r3_anchor_and_registry, "anchor quoting, single registry, memoisation", floor=4),
-    RuleSpec("C10.R4", r4_dir_ident_overrides, "get_dir and ident overrides agree", floor=2),
+    RuleSpec("C10.R5", r5_no_transformation_after_uniqueness, "no lossy transformation after the identifier was made unique", floor=2),
+    RuleSpec("C10.R1", r1_counter_key, "collision key at least as coarse as the stem; injective symbol table", floor=2),
+    RuleSpec("C10.R2", r2_write_targets_use_ident, "per-entity write targets use ident", floor=2),
+    RuleSpec("C10.R3", r3_anchor_and_registry, "anchor quoting, single registry, memoisation", floor=2),
+    RuleSpec("C10.R4", r4_dir_ident_overrides, "get_dir and ident overrides agree", floor=1),
 ]
